@@ -296,6 +296,13 @@ Fixpoint s_run (st : store) (b : sbus) (ops : list op) : list (obs * list bool) 
   | o :: r => let '(x, st', b') := s_step st b o in (x, s_flags b') :: s_run st' b' r
   end.
 
+(* the Bus (and store) a history ends with *)
+Fixpoint s_exec (st : store) (b : sbus) (ops : list op) : store * sbus :=
+  match ops with
+  | [] => (st, b)
+  | o :: r => let '(_, st', b') := s_step st b o in s_exec st' b' r
+  end.
+
 Definition trace_eqb (a b : list (obs * list bool)) : bool :=
   list_eqb (pair_eqb obs_eqb (list_eqb Bool.eqb)) a b.
 
